@@ -21,10 +21,44 @@ def llist(xs):
     return "[" + ", ".join(xs) + "]"
 
 
+class ProblemList(list):
+    """problems tagged with the translator section (scope) that reported them, so that every property depends only on
+    the sections its model reads"""
+    scope = "dump"
+
+    def append(self, msg):
+        list.append(self, (self.scope, msg))
+
+
+# which translator sections each property's model (tables, forms, templates) is read from
+PROP_SCOPES = {
+    "C01": ["kinds", "casing", "names"],
+    "C02": ["kinds", "names", "ctx", "dispatch"],
+    "C03": ["kinds", "casing", "published", "wrapper"],
+    "C04": ["kinds", "names", "ctx", "dispatch", "override", "entry_points"],
+    "C05": ["casing", "published", "wrapper"],
+    "C06": ["kinds", "names", "override", "features", "entry_points"],
+    "C07": ["reply", "reply_on", "features", "data_guards"],
+    "C08": ["reply", "reply_on", "payload"],
+    "C09": ["data_guards", "data"],
+    "C10": ["kinds", "published", "dispatch"],
+    "C11": ["into_response", "custom"],
+    "C12": ["multitest", "kinds", "names"],
+    "C13": ["strip", "sv_attrs"],
+    "C14": ["kinds", "reply", "reply_on", "entry_points", "published"],
+    "C15": [],
+    "C16": ["msg_args"],
+    "C17": ["kinds", "msg_attr_fwd", "sv_attrs"],
+    "C18": ["kinds", "reply", "reply_on", "sv_attrs", "data", "payload", "features", "custom", "msg_args", "override"],
+    "C19": ["templates"],
+    "C20": [],
+}
+
+
 class Dump:
     def __init__(self, files):
         self.files = {f["file"]: f for f in files}
-        self.problems = []
+        self.problems = ProblemList()
 
     def fn(self, file, container, name):
         f = self.files.get(file)
@@ -731,17 +765,28 @@ def generate(dump_lines):
     d = Dump([json.loads(l) for l in dump_lines if l.strip()])
     kinds = ["MsgType"]
     T = {}
+    d.problems.scope = "kinds"
     T["msgTypeNew"] = str_table(d, ("types/msg_type.rs", "MsgType", "new", r"to_string\(\)\.as_str\(\)"), kinds, KINDS, "Kind")
+    d.problems.scope = "override"
     T["overrideParse"] = str_table(d, ("parser/attributes/override_entry_point.rs", "OverrideEntryPoint", "parse", r"to_string\(\)\.as_str\(\)"), kinds, KINDS, "Kind")
+    d.problems.scope = "msg_attr_fwd"
     T["msgAttrFwdParse"] = str_table(d, ("parser/attributes/attr.rs", "MsgAttrForwarding", "parse", r"to_string\(\)\.as_str\(\)"), kinds, KINDS, "Kind")
+    d.problems.scope = "reply_on"
     T["replyOnNew"] = str_table(d, ("parser/attributes/msg.rs", "ReplyOn", "new", r"to_string\(\)\.as_str\(\)"), ["ReplyOn"], REPLYON, "ReplyOn")
     S = {}
+    d.problems.scope = "sv_attrs"
     S["svAttributes"] = str_set(d, ("parser/attributes/mod.rs", "SylviaAttribute", "match_attribute", r"to_string\(\)\.as_str\(\)"))
+    d.problems.scope = "data"
     S["dataParams"] = str_set(d, ("parser/attributes/data.rs", "DataFieldParams", "parse", r"to_string\(\)\.as_str\(\)"))
+    d.problems.scope = "payload"
     S["payloadParams"] = str_set(d, ("parser/attributes/payload.rs", "PayloadFieldParam", "parse", r"to_string\(\)\.as_str\(\)"))
+    d.problems.scope = "features"
     S["featureParams"] = str_set(d, ("parser/attributes/features.rs", "SylviaFeatures", "parse", r"to_string\(\)\.as_str\(\)"))
+    d.problems.scope = "custom"
     S["customParams"] = str_set(d, ("parser/attributes/custom.rs", "Custom", "parse", r"to_string\(\)\.as_str\(\)"))
+    d.problems.scope = "msg_args"
     S["msgArgs"] = str_set(d, ("parser/attributes/msg.rs", "ArgumentParser", "parse", r"to_string\(\)\.as_str\(\)"))
+    d.problems.scope = "names"
     f = "types/msg_type.rs"
     K = {}
     K["epName"] = kind_ident_table(d, (f, "MsgType", "emit_ep_name", r"^self$"))
@@ -749,19 +794,31 @@ def generate(dump_lines):
     K["wrapperName"] = kind_ident_table(d, (f, "MsgType", "emit_msg_wrapper_name", r"^self$"), ("emit_msg_name", K["msgName"]))
     K["accessorName"] = kind_ident_table(d, (f, "MsgType", "as_accessor_name", r"^self$"))
     K["accessorWrapperName"] = kind_ident_table(d, (f, "MsgType", "as_accessor_wrapper_name", r"^self$"), ("as_accessor_name", K["accessorName"]))
+    d.problems.scope = "ctx"
     ctx_ty, ctx_vals, ctx_params = ctx_tables(d)
+    d.problems.scope = "dispatch"
     res = result_table(d)
     legs = dispatch_leg_table(d)
+    d.problems.scope = "data_guards"
     guards = data_guards(d)
+    d.problems.scope = "casing"
     renames = rename_all_sites(d)
     casings = casing_sites(d)
+    d.problems.scope = "entry_points"
     ep = entry_point_logic(d)
+    d.problems.scope = "strip"
     strip_forms(d)
+    d.problems.scope = "published"
     prule = published_rule(d)
+    d.problems.scope = "into_response"
     conv = into_response_tables(d)
+    d.problems.scope = "reply"
     later = reply_forms(d)
+    d.problems.scope = "templates"
     sites = template_sites(d)
+    d.problems.scope = "multitest"
     mt = mt_tables(d)
+    d.problems.scope = "wrapper"
     wforms = wrapper_forms(d)
 
     o = []
@@ -772,7 +829,10 @@ def generate(dump_lines):
     o.append("open Sylvia")
     o.append("")
     o.append("/-- what the translator could not find or classify in the current sources -/")
-    o.append("def problems : List Str := %s" % llist(lstr(p) for p in d.problems))
+    o.append("def problems : List Str := %s" % llist(lstr(sc + ": " + p) for sc, p in d.problems))
+    for pid in sorted(PROP_SCOPES):
+        mine = [sc + ": " + p for sc, p in d.problems if sc == "dump" or sc in PROP_SCOPES[pid]]
+        o.append("def problems_%s : List Str := %s" % (pid, llist(lstr(p) for p in mine)))
     for name, ty in (("msgTypeNew", "Kind"), ("overrideParse", "Kind"), ("msgAttrFwdParse", "Kind"), ("replyOnNew", "ReplyOn")):
         o.append("def %s : List (Str × %s) := %s" % (name, ty, llist("(%s, .%s)" % (lstr(s), v) for s, v in T[name])))
     for name in S:
